@@ -88,7 +88,8 @@ def triggers(case):
             out.add('template-backslash')
         if m['k'] == 'templ' and re.search(r'\\[{}]', re.sub(r'\\\\', '', m['v'])) and re.search(r'\{[^}]*\\', m['v']):
             out.add('template-backslash')
-        lit = (m.get('tt') == 'lit') or (m['k'] == 'const' and m.get('ck') == 'lit')
+        lit = (m.get('tt') == 'lit') or (m['k'] == 'const' and m.get('ck') == 'lit') or \
+              (role == 'object' and not m.get('tt') and o is not None and (o.get('lang') or o.get('dt')))
         if lit and m['k'] == 'const' and re.search(r'["\\\n\r\t\x08\x0c\']', m['v']):
             out.add('unescaped-constant-literal')
         if lit and m['k'] == 'templ' and re.search(r'["\n\r\t\x08\x0c\']', m['v']):
